@@ -88,6 +88,7 @@ def service_part(rep, pid, r, tier, known, *, monitors, backends=('ram', 'sqlmem
     msg, bad = svc.correspond(rep, pid, tag, runs)
     if msg:
       broke = msg
+      concrete = concrete or getattr(rep, 'corr_concrete', False)
   finally:
     if tmp:
       shutil.rmtree(tmp, ignore_errors=True)
